@@ -105,7 +105,7 @@ def recover_and_check(binary, state_dir, completed, inprog, i_label):
         except vlib.Infra as e:
             return [("C07:startup:error", "start-up on the crash state failed: %s" % str(e)[:300])]
 
-        def search(stage, must, may, extra_idx=None):
+        def search(stage, must, may, sure=None):
             r = dr.cmd("query", text="*", index=IDX, start=1, end=1900000000000, size=1000, timeout=60)
             res = r.get("res") or {}
             if not r.get("ok") or "qerr" in res or res.get("hang"):
@@ -149,6 +149,20 @@ def recover_and_check(binary, state_dir, completed, inprog, i_label):
                     c = 0
                 if c != len(set(ids)):
                     bad.append(("C07:count-mismatch", "%s: count(*) = %s but a match-all search returns %d events" % (stage, c, len(set(ids)))))
+            # a time-bounded search over exactly the time span of the newest completed events must find them too
+            # (a recovered segment whose recorded time range is stale hides them from bounded searches only)
+            mine = sorted(i for i in (sure if sure is not None else must) if isinstance(i, int) and i < 1000)
+            if mine:
+                newest = mine[-2:] if len(mine) >= 2 else mine
+                lo_t, hi_t = ev(newest[0])["timestamp"], ev(newest[-1])["timestamp"]
+                r3 = dr.cmd("query", text="*", index=IDX, start=lo_t, end=hi_t, size=1000, timeout=60)
+                res3 = r3.get("res") or {}
+                if r3.get("ok") and "qerr" not in res3 and not res3.get("hang"):
+                    ids3 = set(h.get("id") for h in (res3.get("hits", {}).get("records") or []))
+                    miss3 = [i for i in newest if i not in ids3]
+                    if miss3:
+                        bad.append(("C07:lost-in-time-range", "%s: a search bounded to [%d,%d] does not return events %s of a completed flush "
+                                    "(a match-all search over all time does)" % (stage, lo_t, hi_t, miss3)))
             return set(ids)
         got = search("after restart", completed, allowed)
         if got is None:
@@ -157,11 +171,11 @@ def recover_and_check(binary, state_dir, completed, inprog, i_label):
         new = [1001, 1002]
         r = dr.ok("bulk", body=bulk_cmd(new)["body"])
         dr.ok("flush")
-        got2 = search("after further ingest", list(got) + new, [])
+        got2 = search("after further ingest", list(got) + new, [], sure=completed)
         dr.quit()
         dr = vlib.Driver(binary, cwd=state_dir)
         dr.ok("init", dir="data", wait_ms=500)
-        search("after second restart", list(got) + new, [])
+        search("after second restart", list(got) + new, [], sure=completed)
     except vlib.DriverDead as e:
         if e.kind == "hang":
             raise vlib.Infra("engine did not answer on crash state %s: %s" % (i_label, e))
